@@ -3,6 +3,7 @@ package main
 import (
 	"fmt"
 	"math/rand"
+	"regexp"
 	"strings"
 
 	"github.com/ldclabs/cose/iana"
@@ -224,7 +225,11 @@ func (p *producedMsg) pubKeys() []string {
 	return ks
 }
 
-func genOne(r *rand.Rand, kind string, big bool) *producedMsg {
+func genOne(r *rand.Rand, kind string, big bool) *producedMsg { return genOneX(r, kind, big, 0) }
+
+// genOneX: twist 1 — the caller supplies an unprotected bucket naming a kid of its own (not the key's);
+// twist 2 — the consuming side holds the counterpart key under another kid (or under one where the producer had none)
+func genOneX(r *rand.Rand, kind string, big bool, twist int) *producedMsg {
 	mode := []string{"raw", "raw", "rawmsg", "typed", "raw", "rawmsg", "typed", "gomap", "named"}[r.Intn(9)]
 	algs := algsForKind(kind)
 	nkeys := 1
@@ -233,17 +238,42 @@ func genOne(r *rand.Rand, kind string, big bool) *producedMsg {
 	}
 	var keys []msgKey
 	usedKid := map[string]bool{}
+	if twist == 3 && kind == "sign" { // three signers, the last two of one algorithm
+		nkeys = 3
+	}
+	twinAlg := algs[r.Intn(len(algs))]
 	for i := 0; i < nkeys; i++ {
-		k := genMsgKey(r, algs[r.Intn(len(algs))], false)
+		pickAlg := func() int {
+			if twist == 3 && i > 0 {
+				return twinAlg
+			}
+			return algs[r.Intn(len(algs))]
+		}
+		k := genMsgKey(r, pickAlg(), false)
 		if kind == "sign" && nkeys > 1 {
 			for len(k.kid) == 0 || usedKid[string(k.kid)] {
-				k = genMsgKey(r, algs[r.Intn(len(algs))], false)
+				k = genMsgKey(r, pickAlg(), false)
 			}
 			usedKid[string(k.kid)] = true
 		}
 		keys = append(keys, k)
 	}
 	prot, unprot := genHdrTok(r, 3), genHdrTok(r, 3)
+	switch twist {
+	case 1:
+		unprot = "{ int:4 b:" + hx(randBytes(r, 1+r.Intn(8))) + " }"
+	case 2:
+		if nkeys == 1 {
+			k := &keys[0]
+			other := "int:2 b:" + hx(append(randBytes(r, 1+r.Intn(5)), 0x5a))
+			if len(k.kid) > 0 {
+				re := regexp.MustCompile(`int:2 (b|bs|bx):[0-9a-f]+`)
+				k.pub = re.ReplaceAllString(k.pub, other)
+			} else {
+				k.pub = strings.Replace(k.pub, "{ ", "{ "+other+" ", 1)
+			}
+		}
+	}
 	payload := payloadTok(r, mode, big)
 	if big && (kind == "encrypt0" || kind == "encrypt") {
 		// AES-CCM-16-*: plaintexts at the 2^16 limit, where ciphertext = plaintext + tag crosses it
@@ -266,6 +296,13 @@ func genMsg(r *rand.Rand, n int, flavour string) []string {
 			kind = kindsAll[4+r.Intn(2)]
 		}
 		p := genOne(r, kind, i%30 == 0 || (flavour == "roundtrip" && i%10 == 0))
+		if flavour == "roundtrip" && (i%7 == 3 || i%7 == 5) { // fixed slots, every kind in turn: a kid of the caller's own in the unprotected bucket / the counterpart key held under another kid
+			kind = kindsAll[(i/7)%len(kindsAll)]
+			p = genOneX(r, kind, false, 1+(i%7-3)/2)
+		}
+		if flavour == "tamper-auth" && i%9 == 4 { // COSE_Sign with three signers, the last two of one algorithm
+			p = genOneX(r, "sign", false, 3)
+		}
 		if flavour == "tamper-enc" && i%20 == 7 {
 			// external data beyond 0xff00 octets (the long form of the AEAD's AAD length) under AES-CCM, small message
 			k := genMsgKey(r, ccmAlgs[r.Intn(len(ccmAlgs))], false)
@@ -273,6 +310,9 @@ func genMsg(r *rand.Rand, n int, flavour string) []string {
 			p = buildProduce(r, kind, mode, hx(randBytes(r, 1+r.Intn(20))), "nil", "nil", hx(randBytes(r, []int{65280, 65281, 66000}[r.Intn(3)])), []msgKey{k})
 		}
 		out = append(out, p.line)
+		if i%3 == 1 && strings.HasPrefix(p.line, "msg.produce ") { // the same on a message object that was produced once before
+			out = append(out, "msg.produce2 "+strings.TrimPrefix(p.line, "msg.produce "))
+		}
 		if !p.ok || p.data == nil {
 			continue
 		}
@@ -282,6 +322,9 @@ func genMsg(r *rand.Rand, n int, flavour string) []string {
 		case "roundtrip":
 			out = append(out, p.consumeLine(p.data, p.ext, p.pubKeys()), p.consumeLine(untagged, p.ext, p.pubKeys()), p.consumeLine(cwt, p.ext, p.pubKeys()))
 			out = append(out, "msg.untag "+hx(p.data), "msg.untag "+hx(cwt))
+			if i%4 == 1 { // the same message object and key objects used twice: the second use answers like the first
+				out = append(out, history(r, p)...)
+			}
 		case "reencode":
 			out = append(out, "msg.reencode "+p.kind+" "+hx(p.data), "msg.reencode "+p.kind+" "+hx(untagged), "msg.untag "+hx(cwt))
 			out = append(out, p.consumeLine(p.data, p.ext, p.pubKeys()))
@@ -289,6 +332,14 @@ func genMsg(r *rand.Rand, n int, flavour string) []string {
 			out = append(out, p.consumeLine(p.data, p.ext, p.pubKeys()))
 			for j := 0; j < 4; j++ {
 				out = append(out, tamper(r, p))
+			}
+			if d, ok := reheadProtected(p.data); ok {
+				out = append(out, p.consumeLine(d, p.ext, p.pubKeys()))
+			}
+			if p.kind == "sign" {
+				if d, ok := extendLaterSignerBucket(p.data); ok {
+					out = append(out, p.consumeLine(d, p.ext, p.pubKeys()))
+				}
 			}
 			if i%2 == 0 {
 				out = append(out, history(r, p)...)
@@ -591,6 +642,47 @@ func tamperSigners(r *rand.Rand, data []byte) []byte {
 		}
 	}
 	return replaceSpan(data, spans[3], arrayItem(ne))
+}
+
+// reheadProtected: the body protected bucket re-encoded with a non-shortest map head (a1 .. -> b8 01 ..): the same map,
+// other octets — what was authenticated is the octets
+func reheadProtected(data []byte) ([]byte, bool) {
+	_, spans := topMembers(data)
+	if len(spans) == 0 {
+		return data, false
+	}
+	pc, ok := bstrContent(data[spans[0][0]:spans[0][1]])
+	if !ok || len(pc) == 0 || pc[0] < 0xa1 || pc[0] > 0xb7 {
+		return data, false
+	}
+	np := append([]byte{0xb8, pc[0] - 0xa0}, pc[1:]...)
+	return replaceSpan(data, spans[0], bstrItem(np)), true
+}
+
+// extendLaterSignerBucket: the last signature entry of a COSE_Sign keeps its signature and unprotected bucket while its
+// protected bucket gains one header (the algorithm stays): what that signer signed is no longer what the message says
+func extendLaterSignerBucket(data []byte) ([]byte, bool) {
+	_, spans := topMembers(data)
+	if len(spans) < 4 {
+		return data, false
+	}
+	elems, ok := arrayElems(data[spans[3][0]:spans[3][1]])
+	if !ok || len(elems) < 2 {
+		return data, false
+	}
+	last := elems[len(elems)-1]
+	parts, ok := arrayElems(last)
+	if !ok || len(parts) != 3 {
+		return data, false
+	}
+	pc, ok := bstrContent(parts[0])
+	if !ok || len(pc) == 0 || pc[0] < 0xa0 || pc[0] >= 0xb7 {
+		return data, false
+	}
+	np := append([]byte{pc[0] + 1}, pc[1:]...)
+	np = append(np, 0x18, 0x63, 0x18, 0x63) // 99: 99
+	ne := append(append([][]byte{}, elems[:len(elems)-1]...), arrayItem([][]byte{bstrItem(np), parts[1], parts[2]}))
+	return replaceSpan(data, spans[3], arrayItem(ne)), true
 }
 
 // history: the same message object, verifier and key objects used twice (msg.reuse, seq); the second use must answer
